@@ -371,6 +371,12 @@ structure Assembled where
   loglik : Float
   grad : List Float
 
+/-- the default `initial_guess` (every public `DwelltimeModel` fit starts from it): amplitudes `np.ones(n)/n`, lifetimes
+    `np.mean(t) * n * fractions / np.sum(fractions)` with `fractions = 1, …, n` (exact rationals; `mean` is supplied) -/
+def defaultGuess (n : Nat) (mean : Rat) : List Rat :=
+  let fractions : List Rat := (List.range n).map fun k => ((k + 1 : Nat) : Rat)
+  List.replicate n (1 / (n : Rat)) ++ fractions.map fun f => mean * (n : Rat) * f / fractions.sum
+
 def ratToFloat (r : Rat) : Float := Float.ofInt r.num / Float.ofNat r.den
 
 /-- `none` = `ValueError` of `_handle_amplitude_constraint`.  `probe` is the optimiser's answer (ignored when nothing is
@@ -663,7 +669,9 @@ def handle : List String → Option String
       some (showList showBool c.fitted ++ " " ++ toString c.numFree ++ " " ++ showRatList c.params ++ " " ++ v)
   -- what _exponential_mle_optimize hands to the optimiser / reports for the optimiser's answer `probe`
   | ["c15.assemble", n, params, mask, probe, ts, tmins, tmaxs, steps, lo, hi] => do
-    let n ← nat? n; let params ← ratList? params; let probe ← floatList? probe
+    let n ← nat? n; let probe ← floatList? probe
+    -- `D:<mean>` = `initial_guess=None`: the default guess from the sample mean
+    let params ← if params.startsWith "D:" then (rat? (params.drop 2).toString).map (defaultGuess n) else ratList? params
     let mask ← if mask == "N" then some none else (listOf? bool? mask).map some
     let obs ← mkObs (← floatList? ts) (← floatList? tmins) (← floatList? tmaxs) (← steps? steps)
     let lo ← float? lo; let hi ← float? hi
